@@ -101,6 +101,9 @@ class PropsStream:
                     case.append(f"setlist {name} " + " ".join(rand_val(rng, pid) for _ in range(rng.randint(1, 3))))
                 else:
                     case.append(f"set {name} {rand_val(rng, pid)}")
+                if rng.random() < 0.25 and allowed:
+                    pid2 = rng.choice([x for x in allowed if x in wire.REPEATABLE] or allowed)
+                    case.append(f"alias {NAME_OF[pid2]} {rand_val(rng, pid2)}")
             case.append("pack")
         elif r < 0.7:
             # unpack broker-side encodings (well-formed from the independent encoder, some mutated)
@@ -194,6 +197,18 @@ class PropsStream:
                 elif t[0] == "setlist":
                     setattr(p, t[1], [to_py(t[1], v) for v in t[2:]])
                     obs.append("ok " + view(p))
+                elif t[0] == "alias":
+                    # another object takes over this one's current value (the same list object for a repeatable
+                    # property) and is then given one more value: this object must not change
+                    q = Properties(p.packetType)
+                    cur = getattr(p, t[1], None) if t[1] in vars(p) or hasattr(p, t[1]) else None
+                    try:
+                        if cur is not None:
+                            setattr(q, t[1], cur)
+                        setattr(q, t[1], to_py(t[1], t[2]))
+                        obs.append("ok " + view(p))
+                    except Exception:  # noqa: BLE001
+                        obs.append("rejected " + view(p))
                 elif t[0] == "pack":
                     obs.append(hx(bytes(p.pack())))
                 elif t[0] == "unpack":
@@ -258,6 +273,13 @@ class PropsStream:
                         pending.append((pid, v))
                     if pid not in wire.REPEATABLE:
                         pending = [x for x in pending if x[0] != pid][:] + [(pid, vals[-1])]
+            elif t[0] == "alias":
+                # assigning to ANOTHER object must not change this one: its view is what the last operation left
+                prev = next((obs[j].split(" ", 1)[1] if " " in obs[j] else "" for j in range(i - 1, -1, -1)
+                             if obs[j].startswith("ok") and case[j].split()[0] in ("set", "setlist", "alias")), "")
+                now_ = o.split(" ", 1)[1] if " " in o else ""
+                if o.startswith(("ok", "rejected")) and now_ != prev:
+                    hits.append((i, "alias", f"giving a further {t[1]} value to another Properties object changed this one: {prev[:80]} -> {now_[:80]}"))
             elif t[0] == "pack":
                 if o in ("ValueError", "struct.error", "TypeError", "MQTTException", "OverflowError"):
                     continue
